@@ -316,7 +316,9 @@ pub fn apply_edit(fs: &mut FileState, model: &mut Model, who: Actor, edit: &Edit
                 let i = idx(*pos, fs.lines.len());
                 let c = (*count as usize).max(1).min(fs.lines.len() - i);
                 fs.lines.drain(i..i + c);
-                for j in [i.wrapping_sub(1), i] {
+                // (the marker is observed up to two lines away from the deletion point when
+                // the deletion shares a hunk with other changes)
+                for j in [i.wrapping_sub(2), i.wrapping_sub(1), i, i + 1] {
                     if let Some(l) = fs.lines.get(j) {
                         model.del_neighbors.entry(key_of(l)).or_default().insert(who);
                     }
@@ -403,11 +405,13 @@ pub fn apply_edit(fs: &mut FileState, model: &mut Model, who: Actor, edit: &Edit
                 w.remove(j);
                 let new = format!("{ind}{}", w.join(" "));
                 let mut prev: BTreeSet<Actor> = BTreeSet::new();
+                let mut old_writers: BTreeSet<Actor> = BTreeSet::new();
                 if let Some(e) = model.get(&old) {
                     prev.insert(e.last);
                     if e.last_was_pure_deletion {
                         prev.extend(e.prev_chain.iter().cloned());
                     }
+                    old_writers = e.writers.clone();
                 }
                 if key_of(&new) != key_of(&old) && model.get(&new).is_none() {
                     model.wrote(&new, who, true);
@@ -417,6 +421,8 @@ pub fn apply_edit(fs: &mut FileState, model: &mut Model, who: Actor, edit: &Edit
                         // recognised by the oracle (not silently accepted)
                         e.last_was_pure_deletion = true;
                         e.prev_chain = prev;
+                        // what remains after a pure deletion was written by the earlier writers
+                        e.writers.extend(old_writers.iter().cloned());
                     }
                     model.carry_neighbor_marks(&old, &new);
                     fs.lines[i] = new;
